@@ -604,7 +604,7 @@ pub fn run(ctx: &Ctx) -> Report {
         let aref = &apps;
         let r = par_cases(ctx, "C20", "inside-tls", apps.len() as u64, |rng, i, rep| {
             let (what, app) = &aref[i as usize];
-            let c = super::c18::TlsCase { tls13: rng.bool(), with_cert: false, server_mode: 0, user: b"tlsuser".to_vec(), cmds: vec![], scripts: vec![], first_cut: 0, cycle: if rng.bool() { vec![] } else { vec![rng.range(1, 50) as usize] }, write_limit: usize::MAX, close_notify: rng.bool(), raw_limit: None, hs_variant: 0, app_override: Some(app.clone()), seqs: (1, 2), auth_reject: None, record_per_command: false };
+            let c = super::c18::TlsCase { tls13: rng.bool(), with_cert: false, server_mode: 0, user: b"tlsuser".to_vec(), cmds: vec![], scripts: vec![], first_cut: 0, cycle: if rng.bool() { vec![] } else { vec![rng.range(1, 50) as usize] }, write_limit: usize::MAX, close_notify: rng.bool(), raw_limit: None, hs_variant: 0, app_override: Some(app.clone()), seqs: (1, 2), auth_reject: None, record_per_command: false, write_fault: None };
             let o = match super::c18::run_tls(m, &c) {
                 Ok(o) => o,
                 Err(e) => {
